@@ -692,7 +692,9 @@ func init() {
 				nargs := []string{"--json", "--json-version=1", "--no-progress", "--names=none"}
 				o1, _, c1 := runCmd(wt, env, nil, sizerBin(), append(append([]string{}, nargs...), "HEAD")...)
 				o2, _, c2 := runCmd(w, env, nil, sizerBin(), append(append([]string{}, nargs...), rr.oids[cs[0]])...)
-				if c1 == c2 && bytes.Equal(o1, o2) {
+				if c1 == -9 || c2 == -9 {
+					wtHead = "-" // a run killed at the hang limit says nothing about addressing
+				} else if c1 == c2 && bytes.Equal(o1, o2) {
 					wtHead = "1"
 				} else {
 					wtHead = "0"
@@ -707,6 +709,9 @@ func init() {
 				check := func(expr string, real int) {
 					o1, _, c1 := runCmd(w, env, nil, sizerBin(), append(append([]string{}, nargs...), expr)...)
 					o2, _, c2 := runCmd(w, env, nil, sizerBin(), append(append([]string{}, nargs...), rr.oids[real])...)
+					if c1 == -9 || c2 == -9 {
+						return
+					}
 					if c1 == c2 && bytes.Equal(o1, o2) {
 						if rootReal == "-" {
 							rootReal = "1"
@@ -922,7 +927,7 @@ func init() {
 			if os.Getenv("VERIF_RACE") == "1" {
 				hangLimit = 300 * time.Second
 			}
-			defer func() { hangLimit = 20 * time.Second }()
+			defer func() { hangLimit = 60 * time.Second }()
 			before := snapshotDir(w)
 			bin := sizerBin()
 			if os.Getenv("VERIF_RACE") == "1" {
